@@ -282,6 +282,10 @@ def _mk_q(q, node):
         return named(q["name"], cached(gate.make_lambda(node, f)))
     if kind == "str":
         return q.get("expr", f)
+    if kind == "column":
+        from .scenarios.sparkfake import Column
+
+        return Column(f)
     raise ValueError(kind)
 
 
@@ -294,6 +298,8 @@ def quantity_name(q):
         return q["name"]
     if k == "str":
         return q.get("expr", q["f"])
+    if k == "column":
+        return q["f"]
     return None
 
 
